@@ -45,6 +45,8 @@ func c17Ambients() map[string][]string {
 		"nested-mux-only":  {"PLUGIN_MULTIPLEX_GRPC=true", "VERIF_HOST_MARKER_A=alpha"},
 		"nested-cert-only": {"PLUGIN_CLIENT_CERT=" + c17AmbientCert, "VERIF_HOST_MARKER_A=alpha"},
 		"nested-mux-false": {"PLUGIN_MULTIPLEX_GRPC=false"},
+		"nested-ports-sock": {"PLUGIN_MIN_PORT=1", "PLUGIN_MAX_PORT=2", "PLUGIN_UNIX_SOCKET_GROUP=verif-no-such-group", "PLUGIN_PROTOCOL_VERSIONS=9",
+			spec.CookieKey + "=some-other-value", "VERIF_HOST_MARKER_A=alpha"},
 	}
 }
 
@@ -105,6 +107,24 @@ func c17Gen(r *rand.Rand, tier string) []spec.Case {
 			}
 		}
 	}
+	// Cmd.Env pre-populated with a copy of the host's environment (the usual `append(os.Environ(), "X=y")`):
+	// with the host environment inherited as well, every host variable is there twice
+	for rep := 0; rep < n; rep++ {
+		for _, an := range []string{"nested-plugin", "nested-ports-sock", "markers"} {
+			for _, mtls := range []bool{false, true} {
+				for _, mux := range []bool{false, true} {
+					for _, skip := range []bool{false, true} {
+						p := spec.C17Case{AutoMTLS: mtls, Mux: mux, SkipHostEnv: skip, Launch: "cmd", Ambient: amb[an], AmbientName: an,
+							Sets: pick(r, c01SetsL), UserEnv: []string{"VERIF_USER_VAR=mine"}, UserEnvName: "user-hostcopy", UserEnvHost: true, Group: r.Intn(2) == 0}
+						if r.Intn(2) == 0 {
+							p.MinPort, p.MaxPort = uint(20000+r.Intn(100)), uint(21000+r.Intn(100))
+						}
+						add("env", p)
+					}
+				}
+			}
+		}
+	}
 	for _, un := range []string{"user-nested", "user-mux", "user-cert"} {
 		for _, proto := range []string{"netrpc", "grpc"} {
 			for _, skip := range []bool{false, true} {
@@ -114,6 +134,9 @@ func c17Gen(r *rand.Rand, tier string) []spec.Case {
 	}
 	// end-to-end: a real plugin launched from a host that carries PLUGIN_* variables
 	for _, an := range names {
+		if an == "nested-ports-sock" {
+			continue // carries a socket group that does not exist; inheritance of an unconfigured group is not judged (see assumptions)
+		}
 		for _, proto := range []string{"netrpc", "grpc"} {
 			for _, mtls := range []bool{false, true} {
 				for _, mux := range []bool{false, true} {
@@ -258,7 +281,7 @@ func c17Judge(c spec.Case, evs []spec.Event, d *Death) CaseResult {
 	if !o.StdinSame {
 		viol("stdin", "the launched command's stdin is not the host's stdin")
 	}
-	if p.SkipHostEnv {
+	if p.SkipHostEnv && !p.UserEnvHost { // (with a copy of the host environment in Cmd.Env every variable is the user's own)
 		user := effectiveEnv(p.UserEnv)
 		control := map[string]bool{spec.CookieKey: true, "PLUGIN_MIN_PORT": true, "PLUGIN_MAX_PORT": true, "PLUGIN_PROTOCOL_VERSIONS": true,
 			"PLUGIN_MULTIPLEX_GRPC": true, "PLUGIN_CLIENT_CERT": true, "PLUGIN_UNIX_SOCKET_GROUP": true, "PLUGIN_UNIX_SOCKET_DIR": true}
